@@ -28,7 +28,7 @@ def run(ctx):
         traces_validated_against_impl=tp["judged"],
         evaluations=st["calls"] + tp["judged"],
         distinct_nontrivial=st["near"],
-        rule="vectors = (rule, lo, hi, kind, value) with lo,hi in -%d..%d (all pairs incl. lo>hi), 8 rules, 15 kinds, all 8-bit values, "
+        rule="vectors = (rule, lo, hi, kind, value) with lo,hi in -%d..%d (all pairs incl. lo>hi), 8 rules, 16 kinds, all 8-bit values, "
              "boundary/exterior values, strings of 1..%d runes over 1-/2-/3-/4-byte alphabets, slices of 1..%d elements; each replayed through "
              "every carrier that can hold it; distinct_nontrivial = vectors whose measure is at bound-1, bound or bound+1 of one of the rule's bounds"
              % (w, w, w + 3, w + 3),
